@@ -81,8 +81,10 @@ func (x *c13World) fold(s *c13Slot) {
 			if n, ok := t.Get(ref.FUserName); ok {
 				u.Name = string(n)
 			}
-			if ic, ok := t.Get(ref.FUserIconID); ok && len(ic) >= 2 {
-				u.Icon = uint16(ic[len(ic)-2])<<8 | uint16(ic[len(ic)-1])
+			if ic, ok := t.Get(ref.FUserIconID); ok { // an integer field of any width: its low-order 16 bits
+				for _, b := range ic {
+					u.Icon = u.Icon<<8 | uint16(b)
+				}
 			}
 			if fl, ok := t.Get(ref.FUserFlags); ok && len(fl) >= 2 {
 				u.Flags = uint16(fl[len(fl)-2])<<8 | uint16(fl[len(fl)-1])
@@ -190,7 +192,13 @@ func (x *c13World) apply(op string, last bool) (enabled bool) {
 			return false
 		}
 		fields := []ref.Fld{ref.FS(ref.FUserName, fmt.Sprintf("a%d", k)), ref.F16(ref.FUserIconID, uint16(20+k)), ref.F16(ref.FOptions, uint16(arg))}
-		if arg&4 != 0 {
+		if arg == 8 { // a client that sends no icon field at all (arg 8 = no options either)
+			fields = []ref.Fld{ref.FS(ref.FUserName, fmt.Sprintf("a%d", k)), ref.F16(ref.FOptions, 0)}
+		}
+		if arg == 9 { // a one-byte icon field
+			fields = []ref.Fld{ref.FS(ref.FUserName, fmt.Sprintf("a%d", k)), ref.F(ref.FUserIconID, []byte{9}), ref.F16(ref.FOptions, 0)}
+		}
+		if arg&4 != 0 && arg < 8 {
 			fields = append(fields, ref.FS(ref.FAutoResponse, "gone"))
 			s.auto = "gone"
 		}
@@ -529,7 +537,7 @@ func c13Exec(shift int) func(hist []string) explore.SeqResult {
 }
 
 func c13Alphabet() []string {
-	a := []string{"c123:0", "c123:1", "c123:2", "c15:1", "c15:2", "agree:1:0", "agree:1:5", "agree:2:0", "agree:2:6",
+	a := []string{"c123:0", "c123:1", "c123:2", "c15:1", "c15:2", "agree:1:0", "agree:1:5", "agree:2:0", "agree:2:6", "agree:1:8", "agree:2:9",
 		"info:0:0", "info:1:1", "info:1:2", "info:2:2", "info:1:3", "info:1:4", "priv:1", "priv:2", "bye:0", "bye:1", "bye:2",
 		"pm:0:1", "pm:1:0", "pm:1:2", "pm:2:1", "pm:0:2", "pm:2:0", "inv:0:1", "inv:1:2", "ginfo:0:1", "ginfo:1:2", "kick:0:1", "kick:0:2"}
 	return a
